@@ -290,6 +290,77 @@ def run_cli(argv, cwd=None, home=None, env_extra=None, timeout=120, entry="conso
     return p.returncode, p.stdout.decode("utf-8", "replace"), p.stderr.decode("utf-8", "replace")
 
 
+def run_cli_pty(argv, cwd=None, home=None, env_extra=None, timeout=120, entry="console", on_tty=("stdout",), cols=40, rows=12):
+    """Like run_cli(), but the named standard streams of the child are attached to a pseudo terminal of `cols` x `rows`
+    characters (output post-processing switched off, so what is read back is what was written). Returns
+    (exit status, text written to the terminal, stderr text if it was not on the terminal)."""
+    import fcntl
+    import pty
+    import struct
+    import termios
+    env = {k: v for k, v in os.environ.items() if k not in ("XDG_CONFIG_HOME", "CMINXDIR", "COLUMNS", "LINES")}
+    env["PYTHONPATH"] = os.path.join(repo_root(), "src")
+    env["PYTHONWARNINGS"] = "ignore"
+    env["PYTHONDONTWRITEBYTECODE"] = "1"
+    env["TERM"] = "xterm"
+    if home:
+        env["HOME"] = home
+        env["XDG_CONFIG_DIRS"] = os.path.join(home, "no-such-xdg")
+    env.update(env_extra or {})
+    master, slave = pty.openpty()
+    try:
+        fcntl.ioctl(slave, termios.TIOCSWINSZ, struct.pack("HHHH", rows, cols, 0, 0))
+        attrs = termios.tcgetattr(slave)
+        attrs[1] &= ~termios.OPOST
+        termios.tcsetattr(slave, termios.TCSANOW, attrs)
+        how = [PY, "-c", "import sys; from cminx import main; main(sys.argv[1:])"] if entry == "console" else \
+            [PY, os.path.join(repo_root(), "src", "main.py")]
+        p = subprocess.Popen(how + list(argv), cwd=cwd, env=env, stdin=subprocess.DEVNULL,
+                             stdout=slave if "stdout" in on_tty else subprocess.PIPE,
+                             stderr=slave if "stderr" in on_tty else subprocess.PIPE)
+        os.close(slave)
+        slave = None
+        import select
+        import time as _t
+        chunks, other = [], {}
+        deadline = _t.time() + timeout
+        while True:
+            r, _, _ = select.select([master], [], [], 0.2)
+            if r:
+                try:
+                    data = os.read(master, 65536)
+                except OSError:
+                    data = b""
+                if not data:
+                    break
+                chunks.append(data)
+            elif p.poll() is not None:
+                # drain what is left
+                try:
+                    while True:
+                        r2, _, _ = select.select([master], [], [], 0.05)
+                        if not r2:
+                            break
+                        data = os.read(master, 65536)
+                        if not data:
+                            break
+                        chunks.append(data)
+                except OSError:
+                    pass
+                break
+            if _t.time() > deadline:
+                p.kill()
+                break
+        out_pipe = p.stdout.read() if p.stdout else b""
+        err_pipe = p.stderr.read() if p.stderr else b""
+        rc = p.wait(timeout=10)
+        return rc, b"".join(chunks).decode("utf-8", "replace"), (err_pipe or out_pipe).decode("utf-8", "replace")
+    finally:
+        if slave is not None:
+            os.close(slave)
+        os.close(master)
+
+
 @contextlib.contextmanager
 def sandbox(prefix="vfsb_"):
     d = tempfile.mkdtemp(prefix=prefix)
